@@ -311,7 +311,8 @@ def functionals_group(rep, tier, timeout):
     for kind in ("tube", "wingbox"):
         for exact in (True, False):
             ny = 2
-            s = K.surface(2, ny, True, fem_model_type=kind, exact_failure_constraint=exact) if kind == "wingbox" else K.surface(2, ny, True, exact_failure_constraint=exact)
+            # (the wingbox set-ups carry the switch as a NumPy boolean)
+            s = K.surface(2, ny, True, fem_model_type=kind, exact_failure_constraint=np.bool_(exact)) if kind == "wingbox" else K.surface(2, ny, True, exact_failure_constraint=exact)
             prob = om.Problem(reports=False)
             prob.model.add_subsystem("f", SpatialBeamFunctionals(surface=s), promotes=["*"])
             with warnings.catch_warnings():
